@@ -25,7 +25,8 @@ VMarker(r) ==
     IF ~Same(r.p, r.s) THEN "jinja.same"
     ELSE IF ~MarkerOK(r.m, r.p, r.pre, r.post, r.ws)
          THEN (IF MarkerExoticOK(r.m, r.p, r.pre, r.post, r.ws) THEN "amb:jinja.lineprefix.exotic-line-boundary" ELSE "jinja.lineprefix")
-    ELSE IF r.p.ok = 1 /\ ~MarkerImplOK(r.m, r.p, r.pre, r.post, r.ws) THEN "drift:jinja.lineprefix.impl"
+    (* I-layer: a marker on `raw` is lost (raw_begin tokens never reach the parser): white space swallowed, no prefix *)
+    ELSE IF r.p.ok = 1 /\ ~(IF r.ck = "raw" THEN r.m.out = r.p.out ELSE MarkerImplOK(r.m, r.p, r.pre, r.post, r.ws)) THEN "drift:jinja.lineprefix.impl"
     ELSE "ok"
 
 VAssert(r) ==
@@ -36,19 +37,22 @@ VAssert(r) ==
        ELSE IF R /\ r.b.exc # "TemplateAssertionError" THEN "drift:jinja.assert.exception-class"
        ELSE "ok"
 
-(* text of the selected branch: bodies[i] for clause i, ebody for the else branch, nothing for 0           *)
+(* text of the selected branch: bodies[i] for clause i, ebody for the else branch, nothing for 0.  The tags may   *)
+(* carry white-space control, so the branch text is compared modulo surrounding blanks with the specification  *)
+(* and exactly with the ordinary conditional (same tags spelled if/elif/else) through stock Jinja2.            *)
 VIfuses(r) ==
     LET sel == ChainP(r.cl, r.else)
-        exp == IF sel = ChainErr THEN <<>> ELSE IF sel = 0 THEN <<>> ELSE IF sel = Len(r.cl) + 1 THEN r.ebody ELSE r.bodies[sel]
+        exp == IF sel = ChainErr \/ sel = 0 THEN <<>> ELSE IF sel = Len(r.cl) + 1 THEN r.ebody ELSE r.bodies[sel]
     IN IF sel = ChainErr THEN (IF r.s.ok = 1 THEN "harness.ifuses" ELSE IF r.b.ok = 1 THEN "jinja.ifuses" ELSE "ok")
-       ELSE IF r.s.ok = 0 \/ r.s.out # exp THEN "harness.ifuses"
-       ELSE IF r.b.ok = 0 \/ r.b.out # exp THEN "jinja.ifuses"
+       ELSE IF r.s.ok = 0 \/ Strip(r.s.out) # Strip(exp) THEN "harness.ifuses"
+       ELSE IF r.b.ok = 0 \/ Strip(r.b.out) # Strip(exp) THEN "jinja.ifuses"
+       ELSE IF r.b.out # r.s.out THEN "jinja.ifuses"
        ELSE IF ChainI(r.cl, r.else) # sel THEN "drift:jinja.ifuses.impl"
        ELSE "ok"
 
 Verdict(r) ==
     CASE r.k = "same" -> VSame(r)
-      [] r.k = "marker" -> <<VMarker(r), 0>>
+      [] r.k = "marker" -> <<VMarker(r), IF r.p.ok = 1 /\ r.m.ok = 0 THEN 1 ELSE IF r.p.ok = 0 THEN 2 ELSE 3>>
       [] r.k = "assert" -> <<VAssert(r), 0>>
       [] r.k = "ifuses" -> <<VIfuses(r), 0>>
       [] OTHER -> <<"harness.kind", 0>>
